@@ -137,6 +137,27 @@ def may_call(cg, f, target_qual, assume, depth=0, _seen=None) -> bool:
 
 
 # ---------------------------------------------------------------------------------------------------------------------
+def list_mutation_nodes(g: CFG, holder: str) -> List[Node]:
+    """CFG nodes that change the list denoted by the expression text `holder`: editing method calls, item / slice stores and deletions,
+    augmented assignment"""
+    out = []
+    for n in g.stmt_nodes():
+        hit = False
+        for e in n.exprs():
+            for c in walk_local(e):
+                if isinstance(c, ast.Call) and isinstance(c.func, ast.Attribute) and c.func.attr in ('remove', 'insert', 'append', 'pop', 'extend', 'clear', 'sort', 'reverse') \
+                        and unparse(c.func.value) == holder:
+                    hit = True
+                if isinstance(c, ast.Subscript) and isinstance(c.ctx, (ast.Store, ast.Del)) and unparse(c.value) == holder:
+                    hit = True
+        st = n.ast if n.kind == 'stmt' else None
+        if isinstance(st, ast.AugAssign) and unparse(st.target) == holder:
+            hit = True
+        if hit:
+            out.append(n)
+    return out
+
+
 def bool_flags(g) -> set:
     """local names that are only ever assigned the constants True / False in this function"""
     import ast as _ast
